@@ -102,6 +102,12 @@ def candidate_mutations(root: Any) -> list[tuple[int, str]]:
             out += [(i, "data:elem"), (i, "data:copy")]
             if e.data.dtype.itemsize == 8:
                 out.append((i, "data:dtype"))
+            if e.data.ndim >= 2 and not np.array_equal(
+                    e.data, np.ascontiguousarray(e.data).reshape(-1).reshape(
+                        e.data.shape, order="F")):
+                # memory layout: the same values stored Fortran-ordered (same Canon),
+                # and the same BYTES read Fortran-ordered (other values: other Canon)
+                out += [(i, "data:forder"), (i, "data:fbytes")]
         if isinstance(e, Roll):
             out.append((i, "shift"))
         if isinstance(e, Reshape):
@@ -137,6 +143,11 @@ def mutate(root: Any, idx: int, what: str) -> Any:
     elif what == "data:dtype":         # identical bytes, other dtype
         other = np.int64 if e.data.dtype.kind == "f" else np.float64
         new = eqlib.replace(e, data=e.data.copy().view(other))
+    elif what == "data:forder":
+        new = eqlib.replace(e, data=np.asfortranarray(e.data.copy()))
+    elif what == "data:fbytes":
+        new = eqlib.replace(e, data=np.ascontiguousarray(e.data).reshape(-1).copy().reshape(
+            e.data.shape, order="F"))
     elif what == "shift":
         new = eqlib.replace(e, shift=e.shift + 1)
     elif what == "order":
@@ -193,6 +204,7 @@ def h_progfams(programs: list[dict], nmut: int, xblobs: dict[str, str]) -> list[
         # changed member differs from them, except data:copy (same contents);
         # changed members among each other are left to TLC
         same = [nm in ("base", "rebuild", "pick", "xpick") or ".data:copy#" in nm
+                or ".data:forder#" in nm      # same values, other memory layout
                 for nm in names]
         canon = [[bool(same[i] and same[j]) or i == j for j in range(n)] for i in range(n)]
         known = [[bool(same[i] or same[j]) or i == j for j in range(n)] for i in range(n)]
